@@ -385,6 +385,9 @@ def children_data(t):
         return [t[1]]
     if k == "binop":
         return [t[2], t[3]]
+    if k == "bool":
+        # `x or default` / `a and b` used as a value
+        return list(t[2])
     if k == "sub":
         return [t[1]]
     if k == "slice":
